@@ -48,6 +48,35 @@ func learnVelocities(c *core.Ctx, stream string) map[string]int {
 		}
 		vel[d] = v
 	}
+	// the dynamic in force before any is set: the statement does not name it, so it is learned; it only
+	// has to be one of the six
+	{
+		p := model.Piece{Inst: []model.Instance{{Chord: &model.ChordSpec{Deg: theory.Interval{N: 1, Q: theory.Perfect}, Symbol: "m7"}, Values: one()}}}
+		r, out := playPiece(c, p, model.Flags{}, writeOpts{})
+		f, _ := decodeSMF(out)
+		if infra(c, r) || f == nil {
+			if f == nil && !r.WallKill {
+				c.Violate(stream, 6, "velocity-probe:default:failed", "crd write fails on a one-chord document without a dynamic", withYAML(obs(r), p))
+			}
+			return nil
+		}
+		def := ""
+		for _, e := range mergedEvents(f) {
+			if e.Kind == smfdec.NoteOn {
+				for d, v := range vel {
+					if v == e.Vel() {
+						def = d
+					}
+				}
+				if def == "" {
+					c.Violate(stream, 6, "velocity-probe:default:unknown", fmt.Sprintf("without any dynamic, notes are struck with velocity %d, which is none of the six dynamics %v", e.Vel(), vel), nil)
+					return nil
+				}
+				break
+			}
+		}
+		vel["(default)"] = vel[def]
+	}
 	for i := 1; i < len(model.Dynamics); i++ {
 		a, b := model.Dynamics[i-1], model.Dynamics[i]
 		if vel[a] >= vel[b] {
@@ -60,7 +89,7 @@ func learnVelocities(c *core.Ctx, stream string) map[string]int {
 
 // velocityProblems checks that every chord's note-ons carry the dynamic in force.
 func velocityProblems(f *smfdec.File, p model.Piece, vel map[string]int) []string {
-	cur := "mp"
+	cur := "(default)"
 	var groups [][]smfdec.Event
 	var lastTick uint64
 	first := true
@@ -162,7 +191,7 @@ func checkC07(c *core.Ctx) {
 		return
 	}
 
-	c.Stream("random", c.N(4000, 40000), func(i int, r *rand.Rand) {
+	c.Stream("random", c.N(4000, 100000), func(i int, r *rand.Rand) {
 		p := model.RandPiece(r, model.GenOpts{MinLen: 1, MaxLen: c.N(10, 30), RestProb: 0.3, SettingProb: 0.3, TextProb: 0.25, KeyChanges: true, BassProb: 0.3, MaxDeg: 9})
 		var f model.Flags
 		if r.Intn(3) == 0 {
